@@ -513,17 +513,20 @@ fn report_panic(reg: Reg, front: Front, phase: &str, m: &str, l: &str, hist: &st
 
 fn join_case<const PW: u8, const G: i8>(reg: Reg, front: Front, rng: &mut Prng, col: &mut Collector) {
     let creds = default_creds(rng);
-    let bias = if reg.fixed() && rng.chance(2, 3) { Some((rng.range(1, 8) as u8, *rng.pick(&[1usize, 1, 2, 3, 9]))) } else { None };
+    let bias = if reg.fixed() && rng.chance(2, 3) { Some((rng.range(1, 9) as u8, *rng.pick(&[1usize, 1, 2, 3, 8, 9, 12, 16]))) } else { None };
     let j = TxJudge { reg, cmd_eirp: None };
     let hist_s = format!("joins bias={:?}", bias);
     let nstart = col.tier.pick(24, 128, 2) as u32;
     for v in 0..nstart {
-        let opts = DevOpts { rng_seed: None, rng_start: v.wrapping_mul(0x0101_0101).wrapping_add(v), bias };
+        // (every other device draws from a seeded generator: the scripted counter, two draws per
+        // attempt, only ever reaches half of the residues the channel picks are reduced to)
+        let opts = DevOpts { rng_seed: if v % 2 == 1 { Some(rng.next_u64()) } else { None }, rng_start: v.wrapping_mul(0x0101_0101).wrapping_add(v), bias };
         let mut dev: Dev<PW, G> = Dev::new(front, reg, creds.clone(), &opts);
         if bias.is_some() {
             col.event("bias_join");
         }
-        let attempts = rng.range(1, 12);
+        // (long runs of unanswered attempts: past the biased retries and once round all sub-bands)
+        let attempts = if rng.chance(1, 3) { rng.range(18, 40) } else { rng.range(1, 12) };
         for a in 0..attempts {
             let snap = dev.snapshot();
             let ev0 = dev.ev_len();
